@@ -279,10 +279,10 @@ def lowerRef (decls : List Decl) : Nat → List (String × IR) → Defs → Stri
             let body : LRes IR := match decl with
               | .alias _ params b =>
                 if params.length != xs.length then .diag "TypeArgumentCountMismatch" d0
-                else lower decls n (stack ++ params.zip xs) d0 b
+                else lower decls n (params.zip xs) d0 b       -- lexical scope (fix D83): own parameters only
               | .iface _ params ext members =>
                 if params.length != xs.length then .diag "TypeArgumentCountMismatch" d0
-                else match lowerMembers decls n (stack ++ params.zip xs) d0 members none with
+                else match lowerMembers decls n (params.zip xs) d0 members none with
                   | .ok r d1 =>
                     if ext.isEmpty then .ok r d1
                     else match lowerList decls n stack d1 ext with
